@@ -459,12 +459,24 @@ int EGioWrite(EGioFile_t*file,const char*const string)
 int EGioPrintf(EGioFile_t*file,const char* format, ...)
 {
 	char buf[EGio_BUFSIZE];
+	char *big = 0;
+	int len, rval;
 	va_list va;
 	buf[EGio_BUFSIZE-1]=0;
 	va_start(va,format);
-	vsnprintf(buf,EGio_BUFSIZE,format,va);
+	len = vsnprintf(buf,EGio_BUFSIZE,format,va);
 	va_end(va);
-	return EGioWrite(file,buf);
+	if(len < EGio_BUFSIZE) return EGioWrite(file,buf);
+	/* the text does not fit the stack buffer (a long exact fraction): format
+	 * it again into a block of the length vsnprintf asked for */
+	big = (char*)malloc((size_t)len+1);
+	if(!big) return 0;
+	va_start(va,format);
+	vsnprintf(big,(size_t)len+1,format,va);
+	va_end(va);
+	rval = EGioWrite(file,big);
+	free(big);
+	return rval;
 }
 /* ========================================================================= */
 EGioFile_t* EGioOpenFILE(FILE*ifile)
